@@ -10,7 +10,7 @@ ASSUMPTIONS = [
     "if the tree uses codecs.getincrementaldecoder it is replaced by a 15-line stub with the documented contract, validated at check time against CPython's decoder on all byte strings <= 3 bytes over a 12-byte alphabet",
 ]
 STUBS = ["FakeProcess/FakeStdout", "IncDecoder stub", "JSON recorder"]
-OUTSIDE = ["byte streams longer than 4 bytes (quick) / 5 (thorough) in the fully symbolic families", "more than 3 chunks", "invalid UTF-8 from the child"]
+OUTSIDE = ["consumer schedules other than: the consumer runs exactly when the reader waits (full read stream, next chunk)", "byte streams longer than 4 bytes (quick) / 5 (thorough) in the fully symbolic families", "more than 3 chunks", "invalid UTF-8 from the child"]
 
 KINDS = ["resp", "notif", "req", "junk", "notmsg", "empty"]
 
@@ -60,6 +60,18 @@ def obligations(tier, ctx):
     for kt in [("resp", "req"), ("notif", "resp", "resp")]:
         obs.append(Ob(name="legacy_pending_" + "_".join(kt), params=[("mode", "int")], pre=["0 <= mode <= 1"], call=f"H.routing_legacy_pending({kt!r}, mode, False)",
                       backend="P", timeout=120, family="(c) a legacy per-request stream is pending for the id: the read stream still gets every message"))
+    # (d) back-pressure and counts
+    for kt in [("notif", "notif", "resp"), ("resp", "notif", "req", "notif")] if tier == "quick" else [("notif", "notif", "resp"), ("resp", "notif", "req", "notif"), ("notif",) * 4, ("resp",) * 3, ("junk", "notif", "notmsg", "notif", "resp")]:
+        obs.append(Ob(name="bounded_" + "_".join(kt), params=[("cap", "int"), ("i", "int")], pre=["1 <= cap <= 4", "0 <= i", f"i <= H.data_len({kt!r}, False)", ("i % 7 == 0" if tier == "quick" else "True")],
+                      call=f"H.routing_bounded({kt!r}, cap, i)", real=f"H.routing_bounded_real({kt!r}, cap, i)", backend="P", timeout=400, family="(d) back-pressure: read stream of symbolic capacity 1..4, consumer slower than the reader"))
+    from symcheck import consts
+    lim = 110 if tier == "quick" else 1100
+    nc = len(consts.size_cases(lim))
+    for kind in (0, 2) if tier == "quick" else (0, 1, 2):
+        for cap, nch in ((100, 1), (1, 1)) if tier == "quick" else ((100, 1), (1, 1), (100, 3), (7, 2), (100000, 1)):
+            obs.append(Ob(name=f"many_lines_k{kind}_cap{cap}_ch{nch}", params=[("k", "int")], pre=[f"0 <= k < {nc}"], call=f"H.many_lines(k, {kind}, {cap}, {nch}, {lim})",
+                          real=f"H.many_lines_real(k, {kind}, {cap}, {nch}, {lim})", backend="P", timeout=900,
+                          family="(d) count: c-1, c, c+1 lines in one read (c: integer constants of the source), bounded read stream"))
     from symcheck.runner import mirror
     obs += mirror(obs, r"^(routing_notmsg_req_d0|routing_trail_d0|notify_refused_notif_resp|legacy_pending_resp_req)$", "F", limit=(2 if tier == "quick" else None))
     return obs
